@@ -6,6 +6,7 @@ import (
 	"go/types"
 	"os"
 	"sort"
+	"strings"
 
 	"golang.org/x/tools/go/ssa"
 )
@@ -41,7 +42,7 @@ func (p *Program) forwarderOf(fn *ssa.Function, memo map[*ssa.Function]*forwarde
 	if f, ok := memo[fn]; ok {
 		return f
 	}
-	if busy[fn] || fn == nil || len(fn.Blocks) == 0 || len(fn.Blocks) > 3 || len(fn.FreeVars) > 0 {
+	if busy[fn] || fn == nil || len(fn.Blocks) == 0 || len(fn.Blocks) > 7 || len(fn.FreeVars) > 0 {
 		return nil
 	}
 	busy[fn] = true
@@ -63,6 +64,7 @@ func (p *Program) forwarderOf1(fn *ssa.Function, memo map[*ssa.Function]*forward
 	isMethod := fn.Signature.Recv() != nil
 	var call, nilchk *ssa.Call
 	var rets []*ssa.Return
+	logs, plumbing := 0, 0
 	isRecv := func(v ssa.Value) bool {
 		return paramIdx(v) == 0 || (nilchk != nil && v == ssa.Value(nilchk))
 	}
@@ -75,14 +77,37 @@ func (p *Program) forwarderOf1(fn *ssa.Function, memo map[*ssa.Function]*forward
 					nilchk = x // the nil check of a synthetic pointer-receiver wrapper
 					continue
 				}
+				if isLogCall(x) {
+					logs++
+					continue
+				}
+				if bi, ok := x.Call.Value.(*ssa.Builtin); ok && (bi.Name() == "len" || bi.Name() == "cap") {
+					plumbing++ // a length reported in a log line
+					continue
+				}
 				if call != nil {
 					return nil
 				}
 				call = x
+			case *ssa.Alloc, *ssa.IndexAddr, *ssa.Slice, *ssa.Phi, *ssa.Convert:
+				// the argument arrays of log calls
+				plumbing++
+			case *ssa.Store:
+				// only into the argument arrays of log calls
+				if ia, ok := x.Addr.(*ssa.IndexAddr); !ok {
+					return nil
+				} else if _, local := ia.X.(*ssa.Alloc); !local {
+					return nil
+				}
+				plumbing++
 			case *ssa.Return:
 				rets = append(rets, x)
 			case *ssa.UnOp:
-				// the load of a pointer receiver (synthetic wrapper (*T).M -> (T).M)
+				// the load of a pointer receiver (synthetic wrapper (*T).M -> (T).M), or of the logger
+				if g, isGlobal := x.X.(*ssa.Global); isGlobal && x.Op == token.MUL && isLoggerType(g.Type()) {
+					plumbing++
+					continue
+				}
 				if !(x.Op == token.MUL && isMethod && isRecv(x.X)) {
 					return nil
 				}
@@ -101,6 +126,9 @@ func (p *Program) forwarderOf1(fn *ssa.Function, memo map[*ssa.Function]*forward
 	}
 	if call == nil || call.Call.IsInvoke() || len(rets) == 0 {
 		return nil
+	}
+	if plumbing > 0 && logs == 0 {
+		return nil // arrays and stores are only accepted as the arguments of log calls
 	}
 	g := call.Call.StaticCallee()
 	if g == nil || g == fn || len(g.FreeVars) > 0 {
@@ -162,7 +190,28 @@ func (p *Program) forwarderOf1(fn *ssa.Function, memo map[*ssa.Function]*forward
 			}
 		}
 	}
-	if len(rets) > 1 {
+	if len(rets) > 1 && logs > 0 {
+		// with log lines in between: every branch tests a result of the call against nil
+		for _, b := range fn.Blocks {
+			iff, ok := b.Instrs[len(b.Instrs)-1].(*ssa.If)
+			if !ok {
+				continue
+			}
+			cmp, ok := iff.Cond.(*ssa.BinOp)
+			if !ok {
+				return nil
+			}
+			if k, ok := cmp.Y.(*ssa.Const); !ok || k.Value != nil {
+				return nil
+			}
+			if ex, ok := cmp.X.(*ssa.Extract); ok && ex.Tuple == ssa.Value(call) {
+				continue
+			}
+			if cmp.X != ssa.Value(call) {
+				return nil
+			}
+		}
+	} else if len(rets) > 1 {
 		// hygiene form only: the branch is on the call's last result
 		if len(fn.Blocks) != 3 || nres < 2 {
 			return nil
@@ -182,8 +231,29 @@ func (p *Program) forwarderOf1(fn *ssa.Function, memo map[*ssa.Function]*forward
 		if k, ok := cmp.Y.(*ssa.Const); !ok || k.Value != nil {
 			return nil
 		}
-	} else if whole != 1 || len(fn.Blocks) != 1 {
+	} else if whole != 1 || (len(fn.Blocks) != 1 && logs == 0) {
 		return nil
+	} else if logs > 0 {
+		// one return behind log lines that may sit in branches on the call's error
+		for _, b := range fn.Blocks {
+			iff, ok := b.Instrs[len(b.Instrs)-1].(*ssa.If)
+			if !ok {
+				continue
+			}
+			cmp, ok := iff.Cond.(*ssa.BinOp)
+			if !ok {
+				return nil
+			}
+			if k, ok := cmp.Y.(*ssa.Const); !ok || k.Value != nil {
+				return nil
+			}
+			if ex, ok := cmp.X.(*ssa.Extract); ok && ex.Tuple == ssa.Value(call) {
+				continue
+			}
+			if cmp.X != ssa.Value(call) {
+				return nil
+			}
+		}
 	}
 	// arguments
 	var args []argSrc
@@ -230,6 +300,101 @@ func (p *Program) forwarderOf1(fn *ssa.Function, memo map[*ssa.Function]*forward
 		}
 	}
 	return &forwarder{target: g, args: args}
+}
+
+// isLogCall: a call into zerolog (the start of an event, a field, the message).
+func isLogCall(c *ssa.Call) bool {
+	f := c.Call.StaticCallee()
+	if f == nil {
+		return false
+	}
+	pk := ""
+	if f.Pkg != nil {
+		pk = f.Pkg.Pkg.Path()
+	} else if f.Object() != nil && f.Object().Pkg() != nil {
+		pk = f.Object().Pkg().Path()
+	}
+	return pk == "github.com/rs/zerolog" || strings.HasPrefix(pk, "github.com/rs/zerolog/")
+}
+
+func isLoggerType(t types.Type) bool {
+	if p, ok := t.(*types.Pointer); ok {
+		t = p.Elem()
+	}
+	n, ok := t.(*types.Named)
+	return ok && n.Obj().Pkg() != nil && n.Obj().Pkg().Path() == "github.com/rs/zerolog" && n.Obj().Name() == "Logger"
+}
+
+// funcFieldTargets: functions that are the one value of a function-typed field.
+var funcFieldTargets map[*ssa.Function]bool
+
+// singleFuncField: v is the load of a function-typed struct field of a module type to which, in the
+// whole module, exactly one function is ever assigned (a named function, or a closure that captures
+// nothing); that function.
+func (p *Program) singleFuncField(v ssa.Value) *ssa.Function {
+	ld, ok := v.(*ssa.UnOp)
+	if !ok || ld.Op != token.MUL {
+		return nil
+	}
+	fa, ok := ld.X.(*ssa.FieldAddr)
+	if !ok {
+		return nil
+	}
+	key := func(a *ssa.FieldAddr) (types.Type, int) {
+		t := a.X.Type()
+		if pt, ok := t.Underlying().(*types.Pointer); ok {
+			t = pt.Elem()
+		}
+		return t, a.Field
+	}
+	wantT, wantF := key(fa)
+	if n, ok := wantT.(*types.Named); !ok || n.Obj().Pkg() == nil || !InModule(n.Obj().Pkg().Path()) {
+		return nil
+	}
+	var target *ssa.Function
+	count := 0
+	for _, fn := range p.RepoFns {
+		for _, b := range fn.Blocks {
+			for _, in := range b.Instrs {
+				st, ok := in.(*ssa.Store)
+				if !ok {
+					continue
+				}
+				a, ok := st.Addr.(*ssa.FieldAddr)
+				if !ok {
+					continue
+				}
+				t, f := key(a)
+				if f != wantF || !types.Identical(t, wantT) {
+					continue
+				}
+				count++
+				val := st.Val
+				if ct, ok := val.(*ssa.ChangeType); ok {
+					val = ct.X
+				}
+				switch x := val.(type) {
+				case *ssa.Function:
+					target = x
+				case *ssa.MakeClosure:
+					if f2, ok := x.Fn.(*ssa.Function); ok && len(x.Bindings) == 0 {
+						target = f2
+					} else {
+						return nil
+					}
+				default:
+					return nil
+				}
+			}
+		}
+	}
+	if count != 1 || target == nil || !IsModuleFn(target) && len(target.Blocks) > 0 {
+		return nil
+	}
+	if target != nil {
+		funcFieldTargets[target] = true
+	}
+	return target
 }
 
 // IsModuleFn: fn belongs to the analysed module.
@@ -302,6 +467,7 @@ func (p *Program) inlineForwarders() {
 		return false
 	}
 	seen := map[string]int{}
+	funcFieldTargets = map[*ssa.Function]bool{}
 	for _, fn := range p.RepoFns {
 		for _, b := range fn.Blocks {
 			for _, in := range b.Instrs {
@@ -357,6 +523,15 @@ func (p *Program) inlineForwarders() {
 					}
 					actual = append([]ssa.Value{cc.Value}, cc.Args...)
 				} else {
+					// a call through a function-typed field that is assigned exactly one function in the
+					// whole module (a seam made of func fields set in the constructor) is a call of that
+					// function
+					if cc.StaticCallee() == nil {
+						if target := p.singleFuncField(cc.Value); target != nil {
+							cc.Value = target
+							seen[fmt.Sprintf("func field called as %s", FnName(target))]++
+						}
+					}
 					sf := cc.StaticCallee()
 					if sf == nil || !IsModuleFn(sf) || sf == fn {
 						continue
@@ -367,7 +542,7 @@ func (p *Program) inlineForwarders() {
 					// only methods behind an interface of the module (the production half of a
 					// seam) and the synthetic wrappers around them: any other helper that
 					// forwards is left for the rules to judge
-					if sf.Signature.Recv() == nil || !(fn.Synthetic != "" || implementsModuleIface(sf)) {
+					if !funcFieldTargets[sf] && (sf.Signature.Recv() == nil || !(fn.Synthetic != "" || implementsModuleIface(sf))) {
 						continue
 					}
 					fw = p.forwarderOf(sf, memo, busy)
@@ -425,9 +600,49 @@ func (p *Program) inlineForwarders() {
 			}
 		}
 	}
+	// a forwarding function whose only mention is its assignment to the function-typed field
+	// through which all its (rewritten) calls went
+	onlyStoredInField := func(f *ssa.Function) bool {
+		n := 0
+		for _, fn := range p.RepoFns {
+			for _, b := range fn.Blocks {
+				for _, in := range b.Instrs {
+					for _, op := range in.Operands(nil) {
+						if op == nil || *op == nil {
+							continue
+						}
+						v := *op
+						if mc, ok := v.(*ssa.MakeClosure); ok && mc.Fn == ssa.Value(f) {
+							v = f
+						}
+						if v != ssa.Value(f) {
+							continue
+						}
+						switch x := in.(type) {
+						case *ssa.MakeClosure:
+							// the closure value itself: its uses are counted where it is used
+						case *ssa.ChangeType:
+							_ = x
+						case *ssa.Store:
+							if _, isField := x.Addr.(*ssa.FieldAddr); !isField {
+								return false
+							}
+							n++
+						default:
+							return false
+						}
+					}
+				}
+			}
+		}
+		return n > 0
+	}
 	var kept []*ssa.Function
 	for _, fn := range p.RepoFns {
 		if fw := memo[fn]; fw != nil && !used[fn] && fn.Signature.Recv() != nil && !p.mayBeInvoked(fn, concrete) {
+			continue
+		}
+		if fw := memo[fn]; fw != nil && funcFieldTargets[fn] && fn.Signature.Recv() == nil && onlyStoredInField(fn) {
 			continue
 		}
 		kept = append(kept, fn)
